@@ -2,7 +2,7 @@
    Print Assumptions; the statements are pinned here so they cannot be quietly weakened. *)
 From FB Require Import C02.Model C02.Encode C02.Theory1 C02.Theory2 C02.Theory3 C02.Theory4 C02.Theory5
   C02.Theory6 C02.Theory7 C02.Theory8 C02.Theory9 C02.Frames C02.TheoryF C02.Gen
-  C02.Class C02.Decode C02.Facts C02.TheoryC1 C02.TheoryC2 C02.TheoryC3 C02.TheoryC4 C02.TheoryC5 C02.TheoryC6 C02.TheoryC7 C02.TheoryC8 C02.TheoryC9 C02.TheoryC10 C02.TheoryC11 C02.TheoryG C02.Expand C02.TheoryE C02.TheoryD C02.TheoryB1 C02.TheoryB2 C02.TheoryR C02.TheoryT C02.TheoryI.
+  C02.Class C02.Decode C02.Facts C02.TheoryC1 C02.TheoryC2 C02.TheoryC3 C02.TheoryC4 C02.TheoryC5 C02.TheoryC6 C02.TheoryC7 C02.TheoryC8 C02.TheoryC9 C02.TheoryC10 C02.TheoryC11 C02.TheoryG C02.Expand C02.TheoryE C02.TheoryD C02.TheoryB1 C02.TheoryB2 C02.TheoryR C02.TheoryT C02.TheoryI C02.TheoryU C02.TheoryS C02.TheoryK C02.TheoryL C02.TheoryW.
 From FB Require C18.Model.
 Local Open Scope Z_scope.
 
@@ -627,3 +627,163 @@ Theorem C02_bootstrap_indices_in_table : forall t bs aux, write_class_aux t = WO
                    b < zlen (a_bsm aux)) (p_inner (a_pool aux)).
 Proof. exact bootstrap_indices_in_table. Qed.
 Print Assumptions C02_bootstrap_indices_in_table.
+
+(* ---------- modified UTF-8 (JVMS 4.4.7) ---------- *)
+(* mutf8 (C02/Class.v) is the encoder the whole-class model uses for every string (and the specification side of
+   C02_invokeinterface_count).  dec_units (C02/TheoryU.v) is a decoder that looks only at bytes and accepts only the forms of
+   JVMS 4.4.7: 01..7F; C0 80 for NUL and two bytes for 0080..07FF; three bytes for 0800..FFFF; nothing else (a zero byte, a
+   non-shortest form, a lead byte F0..FF, a missing continuation byte are errors).  For EVERY list of code points below
+   0x110000 — NUL, unpaired surrogates, supplementary characters — decoding the encoding gives the UTF-16 code units of the
+   list; joining surrogate pairs gives the list itself unless it holds a high-surrogate code point immediately before a
+   low-surrogate code point (nsp; such a list has the same UTF-16 form, hence the same bytes, as the list with the one
+   supplementary character: C02_mutf8_examples). *)
+Theorem C02_mutf8_decodes_utf16 : forall s, cps_ok s -> dec_units (mutf8 s) = Some (utf16 s).
+Proof. exact mutf8_decodes_utf16. Qed.
+Print Assumptions C02_mutf8_decodes_utf16.
+
+Theorem C02_mutf8_roundtrip : forall s, cps_ok s -> nsp s = true -> dec_mutf8 (mutf8 s) = Some s.
+Proof. exact mutf8_roundtrip. Qed.
+Print Assumptions C02_mutf8_roundtrip.
+
+Theorem C02_mutf8_roundtrip_general : forall s, cps_ok s -> dec_mutf8 (mutf8 s) = Some (join (utf16 s)).
+Proof. exact mutf8_roundtrip_general. Qed.
+Print Assumptions C02_mutf8_roundtrip_general.
+
+Theorem C02_mutf8_injective : forall s s', cps_ok s -> cps_ok s' -> nsp s = true -> nsp s' = true -> mutf8 s = mutf8 s' -> s = s'.
+Proof. exact mutf8_injective. Qed.
+Print Assumptions C02_mutf8_injective.
+
+Theorem C02_mutf8_eq_iff_utf16 : forall s s', cps_ok s -> cps_ok s' -> (mutf8 s = mutf8 s' <-> utf16 s = utf16 s').
+Proof. exact mutf8_eq_iff_utf16. Qed.
+Print Assumptions C02_mutf8_eq_iff_utf16.
+
+(* one to six bytes per code point, one to three per UTF-16 unit (what the u16 length of a CONSTANT_Utf8 counts) *)
+Theorem C02_mutf8_length : forall s,
+  (length s <= length (mutf8 s) <= 6 * length s)%nat /\
+  (length (utf16 s) <= length (mutf8 s) <= 3 * length (utf16 s))%nat.
+Proof. exact mutf8_length. Qed.
+Print Assumptions C02_mutf8_length.
+
+Theorem C02_mutf8_ascii : forall s, Forall (fun c => (0 < c /\ c < 128)%N) s -> mutf8 s = s.
+Proof. exact mutf8_ascii. Qed.
+Print Assumptions C02_mutf8_ascii.
+
+(* no zero byte, no byte F0..FF *)
+Theorem C02_mutf8_bytes : forall s, cps_ok s -> Forall (fun b => (0 < b /\ b < 240)%N) (mutf8 s).
+Proof. exact mutf8_bytes. Qed.
+Print Assumptions C02_mutf8_bytes.
+
+Theorem C02_mutf8_examples :
+  nsp exu = true /\ cps_ok exu /\
+  mutf8 exu = [192;128; 65; 195;169; 228;184;173; 237;160;189; 237;160;189;237;184;128; 237;184;128;
+               237;175;191;237;191;191; 237;184;128; 237;160;189]%N /\
+  dec_mutf8 (mutf8 exu) = Some exu /\
+  nsp [55357; 56832]%N = false /\ mutf8 [55357; 56832]%N = mutf8 [128512]%N /\ dec_mutf8 (mutf8 [55357; 56832]%N) = Some [128512]%N /\
+  dec_units [0]%N = None /\ dec_units [192; 129]%N = None /\ dec_units [224; 128; 128]%N = None /\ dec_units [240; 159; 152; 128]%N = None /\
+  dec_units [193; 191]%N = None /\ dec_units [194]%N = None.
+Proof. exact mutf8_examples. Qed.
+Print Assumptions C02_mutf8_examples.
+
+(* ---------- the label map is reset between attempts (Labels::next_attempt) ---------- *)
+(* An attempt of the model starts from the empty label map.  wc_loop_stale (C02/TheoryS.v) is the same loop with the map of
+   the previous attempt carried into the next one.  The two are the same loop as long as no attempt is repeated; on
+   `goto L; 32768 x nop; L: return` (one restart) the loop of the model writes goto_w +32773 = the position of L, the loop
+   that keeps the map writes goto_w +32771, a nop two bytes before L: C02_write_is_encode and C02_targets_preserved are
+   theorems about the loop that resets the map, and are false of the other. *)
+Theorem C02_attempt_starts_empty : forall W b last, attempt W b last = fst (attempt_from [] W b last).
+Proof. exact attempt_is_from_nil. Qed.
+Print Assumptions C02_attempt_starts_empty.
+
+Theorem C02_stale_same_without_restart : forall f W b last,
+  (forall i, attempt W b last <> ARestart i) -> wc_loop_stale (S f) [] W b last = wc_loop (S f) W b last.
+Proof. exact stale_same_without_restart. Qed.
+Print Assumptions C02_stale_same_without_restart.
+
+Theorem C02_stale_labels_break : stale_check = true.
+Proof. exact stale_labels_break. Qed.
+Print Assumptions C02_stale_labels_break.
+
+(* ---------- the converse of C02_write_class_errors for the causes that can be read off the tree ---------- *)
+(* class_fits (C02/TheoryK.v): every list the writer prefixes with a u16 count has at most 65535 elements (interfaces,
+   fields, methods, inner classes, declared exceptions, exception table, line numbers, local variables with a descriptor /
+   with a signature, annotations, element-value pairs and array values at every depth, type annotations, localvar target
+   tables, the lists of a module and their inner lists, module packages, nest members, permitted subclasses, record
+   components), every u8-counted list at most 255 (method parameters, type paths), every Code has max_stack / max_locals
+   and get_arguments_size succeeds on the descriptor of every invokeinterface.  A successful write implies all of it; so a
+   tree with one such cause is never written, and (no panic) is answered with an error. *)
+Theorem C02_write_class_ok_fits : forall t r, write_class_aux t = WOK r -> class_fits t.
+Proof. exact write_class_ok_fits. Qed.
+Print Assumptions C02_write_class_ok_fits.
+
+Theorem C02_write_class_unfit_is_error : forall t, cclass_ok t = true -> cclass_np t = true -> ~ class_fits t -> write_class t = ERR.
+Proof. exact write_class_unfit_is_error. Qed.
+Print Assumptions C02_write_class_unfit_is_error.
+
+(* every CONSTANT_Utf8 of the written pool has at most 65535 bytes (key = tag, u16 length, bytes) *)
+Theorem C02_written_utf8_fit : forall t bs aux, write_class_aux t = WOK (bs, aux) ->
+  forall e r, In e (p_inner (a_pool aux)) -> pe_key e = 1%N :: r -> zlen r <= 65537.
+Proof. exact ok_utf8_fit. Qed.
+Print Assumptions C02_written_utf8_fit.
+
+(* where nothing can fail before it, the cause is the answer: more than 65535 interfaces *)
+Theorem C02_too_many_interfaces : forall t, 65535 < zlen (k_interfaces t) -> write_class_aux t = WERR (ECount16 (zlen (k_interfaces t))).
+Proof. exact too_many_interfaces. Qed.
+Print Assumptions C02_too_many_interfaces.
+
+Theorem C02_fits_examples :
+  write_class_aux (exk_class (exk_method (Some (repeat [69]%N (N.to_nat 65536))) None)) = WERR (ECount16 65536) /\
+  write_class_aux (exk_class (exk_method None (Some (repeat (None, 0) 256)))) = WERR (ECount8 256) /\
+  is_wok (write_class_aux (exk_class (exk_method None (Some (repeat (None, 0) 255))))) = true.
+Proof. exact fits_examples. Qed.
+Print Assumptions C02_fits_examples.
+
+(* ---------- a table label that no instruction carries is an error ---------- *)
+(* code_table_labels (C02/TheoryL.v): the labels named by the exception table, the line numbers, the local variables that
+   have a descriptor or a signature, and the localvar / offset / type-argument targets of the code type annotations;
+   code_labels: the labels the instructions carry and the last label.  A successful write implies that every table label
+   is one of them (the converse of cause ELabel of C02_write_class_errors; for branch and switch targets the same is part
+   of C02_write_fails_cleanly). *)
+Theorem C02_write_code_labels_carried : forall c, ccode_ok c = true ->
+  forall s r, write_code_attr c s = WOK r -> incl (code_table_labels c) (code_labels c).
+Proof. exact write_code_labels_carried. Qed.
+Print Assumptions C02_write_code_labels_carried.
+
+Theorem C02_write_class_labels_carried : forall t r, cclass_ok t = true -> write_class_aux t = WOK r ->
+  Forall (fun m => match md_code m with Some c => incl (code_table_labels c) (code_labels c) | None => True end) (k_methods t).
+Proof. exact write_class_labels_carried. Qed.
+Print Assumptions C02_write_class_labels_carried.
+
+Theorem C02_labels_examples :
+  ccode_ok (exl_code 7%N) = true /\ ccode_ok (exl_code 1%N) = true /\
+  incl (code_table_labels (exl_code 7%N)) (code_labels (exl_code 7%N)) /\
+  ~ incl (code_table_labels (exl_code 1%N)) (code_labels (exl_code 1%N)).
+Proof. exact labels_examples. Qed.
+Print Assumptions C02_labels_examples.
+
+(* ---------- a closed form of the final wide set ---------- *)
+(* For a method body without tableswitch / lookupswitch the set of instruction indices the loop of write_code ends with is
+   the LEAST set on which an attempt succeeds: the attempt with W succeeds, and W is included in every C whose attempt
+   succeeds (without switch padding every distance between two instructions is monotone in the wide set, so a reference
+   that does not fit under W does not fit under any larger set that leaves it narrow: C02_restart_blocks).  With a switch
+   there is no least set (C02_switch_not_least): padding can shrink when another jump is widened. *)
+Theorem C02_restart_blocks : forall W C b last i,
+  switch_free b -> wsub W C -> attempt W b last = ARestart i -> memN i C = false ->
+  forall wc labsc, attempt C b last <> ADone wc labsc.
+Proof. exact restart_blocks. Qed.
+Print Assumptions C02_restart_blocks.
+
+Theorem C02_final_wide_least : forall b last w labs W,
+  switch_free b -> wc_loop (S (length b)) [] b last = Some (OK (w, labs, W)) ->
+  attempt W b last = ADone w labs /\
+  forall C wc labsc, attempt C b last = ADone wc labsc -> forall i, In i W -> In i C.
+Proof. exact final_wide_least. Qed.
+Print Assumptions C02_final_wide_least.
+
+Theorem C02_wide_example : switch_free ex_w /\
+  match wc_loop (S (length ex_w)) [] ex_w None with Some (OK (_, _, [0%N])) => True | _ => False end.
+Proof. exact wide_example. Qed.
+Print Assumptions C02_wide_example.
+
+Theorem C02_switch_not_least : sw_check = true.
+Proof. exact switch_not_least. Qed.
+Print Assumptions C02_switch_not_least.
